@@ -172,6 +172,8 @@ struct Janus {
                                           c.name :
                                           dst.member_name(c.col);
 
+            // H5Dwrite silently skips members the file type does not have: refuse them here
+            dst.member_index(name);
             dtype.insert(name, offset, t);
             copyValue(offset, c);
             offset += s;
@@ -425,6 +427,8 @@ void DataFrameHDF5::writeColumn(const std::string &name,
                                 const void *data) {
     DataSet ds = this->data();
     h5x::DataType dts = ds.dataType();
+    // a member the file type does not have is silently skipped by HDF5: refuse an unknown column
+    dts.member_index(name);
     h5x::DataType memType = data_type_to_h5_memtype(dtype);
     size_t ms = memType.size();
 
@@ -451,6 +455,8 @@ void DataFrameHDF5::readColumn(const std::string &name,
                                void *data) const {
     DataSet ds = this->data();
     h5x::DataType dts = ds.dataType();
+    // a member the file type does not have would leave the caller's buffer untouched: refuse an unknown column
+    dts.member_index(name);
     h5x::DataType memType = data_type_to_h5_memtype(dtype);
 
     size_t ms = memType.size();
